@@ -192,6 +192,12 @@ func (g *gen) next() drv.Op {
 		what := r.Intn(8)
 		if what&1 != 0 || what == 0 {
 			o.WMode = uint32(r.Intn(512))
+			if f != nil && r.Chance(1, 3) {
+				// the permission bits the file had when this fid was bound (what a server that caches the
+				// stat of a fid still believes): set again after another chmod through the same fid, this
+				// must reach the host like any other chmod
+				o.WMode = f.info.mode & 0o777
+			}
 			if r.Chance(1, 5) {
 				o.WMode |= uint32(r.Pick(0x80000000, 0x40000000, 0o4000, 0o1000))
 			}
@@ -239,7 +245,7 @@ func max64(a, b int64) int64 {
 func main() {
 	r := rep.Open()
 	defer r.Close()
-	r.Rule = "each case is one ufs session of 25-55 calls (create, mkdir, open with all 256 mode bytes sampled, read/write at offsets around the file size, truncate, chmod, rename incl. into sub/parent directories and onto existing entries, remove, walk, stat, directory listing) on a fresh S/export with a twin S/twin driven by direct os calls, followed by a probe of every tree node through freshly walked fids. Names include legal dotted ones ('notes..txt', '..hidden', '...'); Tattach carries various anames; one session in four removes an open fid's file through a second fid and then Tremoves the first; after every clunk/remove/walk the process's descriptors into the export (/proc/self/fd) must equal the fids with a file open, and none may remain after Stop. The host itself sets explicit modification times (0, 1, 2000-01-01, 2^31-1, 2^31, 2^32-1, ...) on random nodes between calls; the modification time (whole seconds) of every freshly bound fid and of every listing entry is compared with os.Lstat / os.ReadDir taken at the same point. A case is non-trivial when at least one operation changed the host tree; distinct by canonical case text."
+	r.Rule = "each case is one ufs session of 25-55 calls (create, mkdir, open with all 256 mode bytes sampled, read/write at offsets around the file size, truncate, chmod (random bits, and back to the bits the file had when the fid was bound), rename incl. into sub/parent directories and onto existing entries, remove, walk, stat, directory listing) on a fresh S/export with a twin S/twin driven by direct os calls, followed by a probe of every tree node through freshly walked fids. Names include legal dotted ones ('notes..txt', '..hidden', '...'); Tattach carries various anames; one session in four removes an open fid's file through a second fid and then Tremoves the first; after every clunk/remove/walk the process's descriptors into the export (/proc/self/fd) must equal the fids with a file open, and none may remain after Stop. The host itself sets explicit modification times (0, 1, 2000-01-01, 2^31-1, 2^31, 2^32-1, ...) on random nodes between calls; the modification time (whole seconds) of every freshly bound fid and of every listing entry is compared with os.Lstat / os.ReadDir taken at the same point. A case is non-trivial when at least one operation changed the host tree; distinct by canonical case text."
 	rng := prng.New(r.Seed)
 
 	top, err := os.MkdirTemp("", "verif-c19-")
